@@ -175,12 +175,13 @@ unknown_field:
 			if (itr->_ftype != FieldTrait::ft_Length || tv == Common_BodyLength) // this type expects next field to be data
 				break;
 
-			// a Length field that is not followed by its data field (tag + 1) is an ordinary number, e.g. MaxMessageSize
+			// a Length field that is not followed by a data field is an ordinary number, e.g. MaxMessageSize; the data field
+			// usually has the next tag number, but not always: SignatureLength is 93, Signature is 89
 			{
 				unsigned ntv(0), jj(s_offset);
 				for (; jj < fsize && isdigit(dptr[jj]) && ntv < 0x10000; ++jj)
 					ntv = ntv * 10 + (dptr[jj] - '0');
-				Presence::const_iterator ditr(ntv == tv + 1u ? _fp.get_presence().find(static_cast<unsigned short>(ntv)) : _fp.get_presence().end());
+				Presence::const_iterator ditr(ntv < 0x10000 ? _fp.get_presence().find(static_cast<unsigned short>(ntv)) : _fp.get_presence().end());
 				if (jj >= fsize || dptr[jj] != default_assignment_separator
 					|| ditr == _fp.get_presence().end() || ditr->_ftype != FieldTrait::ft_data)
 						break;
@@ -193,11 +194,10 @@ unknown_field:
 			if (!result)
 				throw MissingMandatoryField("Unable to extract fixed width field");
 
-			const unsigned short lasttv(tv);
 			tv = tag_to_fnum(tag);
 			if ((itr = _fp.get_presence().find(tv)) == _fp.get_presence().end())
 				goto unknown_field;
-			if (itr->_ftype != FieldTrait::ft_data || lasttv + 1 != tv) // next field must be data, tag must be 1 greater than length tag
+			if (itr->_ftype != FieldTrait::ft_data) // next field must be data
 				break;
 			s_offset += result;
 		}
